@@ -117,9 +117,13 @@ func (d *rawDecoder) Scan(ctx context.Context) (DecodedAmmo, error) {
 
 		a := d.pool.Get().(*ammo.RawAmmo)
 		if reqSize != 0 {
-			buff := make([]byte, reqSize)
-			if n, err := io.ReadFull(d.reader, buff); err != nil {
-				return nil, xerrors.Errorf("failed to read ammo with err: %w, at position: %v; tried to read: %v; have read: %v", err, position, reqSize, n)
+			// Do not trust declared size: allocate only what file really contains.
+			buff, err := io.ReadAll(io.LimitReader(d.reader, int64(reqSize)))
+			if err == nil && len(buff) < reqSize {
+				err = io.ErrUnexpectedEOF
+			}
+			if err != nil {
+				return nil, xerrors.Errorf("failed to read ammo with err: %w, at position: %v; tried to read: %v; have read: %v", err, position, reqSize, len(buff))
 			}
 
 			a.Setup(buff, tag, position, d.decodedConfigHeaders)
